@@ -39,6 +39,8 @@ def make_case(prop, seed, i, tier):
         return dict(prop=prop, i=i, kind="param", cls=cls, param=prm, mseed=rng.randrange(10 ** 9))
     spec = G.gen_random(rng, G.profile(facility_rich=rng.random() < 0.4, max_time=50, ensure_worker=0.9))
     add_due_times(rng, spec)
+    if rng.random() < 0.12:
+        G.add_idle_parts(rng, spec)
     # numeric edge values
     if rng.random() < 0.3:
         for t in spec["tasks"]:
@@ -271,6 +273,12 @@ def run_stage(case, res):
             res.violate("C16", "C16/roundtrip-differs:%s" % field_of(d[0], j1),
                         "stage %s: JSON of the restored project differs at %s: %r -> %r" % (st, d[0], d[1], d[2]), path=d[0])
         check_references(res, q)
+        a0, b0 = strip_pert(B.dump(p, live=False)), strip_pert(B.dump(q, live=False))
+        res.count("C16.restored_log_comparisons")
+        if a0 != b0:
+            df = B.first_diff(a0, b0)
+            res.violate("C16", "C16/restored-logs-differ-from-original",
+                        "stage %s: the restored logs differ from the written project's at %s (%r vs %r)" % (st, df[0], df[1], df[2]))
         pd, wrong = param_diff(p, q, saved_fields(j1))
         res.count("C16.restored_parameter_comparisons")
         for cls, prm in sorted(wrong):
@@ -311,11 +319,92 @@ def run_stage(case, res):
                 if a != b:
                     df = B.first_diff(a, b)
                     res.violate("C16", "C16/resimulation-differs", "stage %s: restored project re-simulates differently at %s (%r vs %r)" % (st, df[0], df[1], df[2]))
+        later_reads_and_writes(case, res, h, p, q, path1, j1, st)
     finally:
         for x in (path1, path2):
             if x and os.path.exists(x):
                 os.remove(x)
     res["nontrivial"] = bool(st != "never" and live)
+
+
+def later_reads_and_writes(case, res, h, p, q, path1, j1, st):
+    """(a) the same file read a second time, after the first restored project was used and changed,
+    gives the same project again; (b) the same objects written a second time, after their logs were
+    edited, give a file from which exactly their present content is restored."""
+    import random
+    rng = random.Random(case["i"] * 7919 + 13)
+    # -- (a)
+    try:
+        with warnings.catch_warnings():
+            warnings.simplefilter("ignore")
+            if q.time > 0 and rng.random() < 0.6:
+                q.insert_absence_time_list([rng.randrange(0, q.time)])
+            elif q.time > 0 and rng.random() < 0.5:
+                q.reverse_log_information()
+            else:
+                q.absence_time_list.append(97)
+            q.cost_list.append(123.0)
+            for tm in q.organization.team_list:
+                for w in tm.worker_list:
+                    w.workamount_skill_mean_map["_changed_"] = 9.0
+                    w.cost_list.append(5.0)
+            for t in q.workflow.task_list:
+                t.state_record_list.append(ns.BaseTaskState.FINISHED)
+            q3 = ns.BaseProject()
+            q3.read_simple_json(path1)
+        path3, e = save(res, q3, "c")
+        if e is None:
+            try:
+                j3 = json.load(open(path3))
+            finally:
+                os.remove(path3)
+            res.count("C16.second_reads_of_same_file")
+            d = json_diff(j1, j3)
+            if d:
+                res.violate("C16", "C16/second-read-of-same-file-differs:%s" % field_of(d[0], j1),
+                            "stage %s: the file read a second time (after the first restored project was changed) restores a different project at %s: %r -> %r" % (st, d[0], d[1], d[2]))
+    except Exception as ex:
+        e = exc_info(ex)
+        res.violate("C16", "C16/second-read-raises:%s:%s" % (e["type"], e["where"]), "second read of the same file raised %s: %s" % (e["type"], e["msg"]))
+    # -- (b)
+    h.p = p
+    if p.time > 0:
+        r = rng.random()
+        if r < 0.45:
+            op = ["insert_abs", sorted(set(rng.sample(range(0, p.time + 1), min(p.time, rng.randint(1, 2)))))]
+        elif r < 0.75:
+            op = ["reverse"]
+        else:
+            op = ["remove_abs"]
+        if h.do(op) is not None:
+            return
+        res.count("C16.second_write_after." + op[0])
+    else:
+        res.count("C16.second_write_after.nothing")
+    path4, e = save(res, p, "d")
+    if e is not None:
+        res.violate("C16", "C16/write-raises:%s:%s:second-write" % (e["type"], e["where"]), "second write_simple_json raised %s: %s" % (e["type"], e["msg"]))
+        return
+    try:
+        q4 = ns.BaseProject()
+        try:
+            with warnings.catch_warnings():
+                warnings.simplefilter("ignore")
+                q4.read_simple_json(path4)
+        except Exception as ex:
+            e = exc_info(ex)
+            res.violate("C16", "C16/read-raises:%s:%s:second-write" % (e["type"], e["where"]), "read of the second file raised %s: %s" % (e["type"], e["msg"]))
+            return
+        res.count("C16.second_writes")
+        a, b = strip_pert(B.dump(p, live=False)), strip_pert(B.dump(q4, live=False))
+        if a != b:
+            df = B.first_diff(a, b)
+            res.violate("C16", "C16/restored-logs-differ-from-original:second-write",
+                        "stage %s: after a second write (following %s) the restored logs differ from the written project's at %s (%r vs %r)" % (
+                            st, res["counters"] and [k for k in res["counters"] if k.startswith("C16.second_write_after.")], df[0], df[1], df[2]))
+    finally:
+        if os.path.exists(path4):
+            os.remove(path4)
 
 
 # ---------------------------------------------------------------------------------------
